@@ -48,7 +48,7 @@ PROPS = {
     },
     "C02": {
         "kani": ["crux_core"],
-        "verus": ["Q", "X", "L"],
+        "verus": ["Q", "X", "L", "R"],
         "kani_timeout_quick": 420,
         "kani_timeout_thorough": 3600,
         "trusted_base": [
@@ -59,6 +59,7 @@ PROPS = {
             "Resolve<Out>, Request<Op> and ResolveSerialized are parametric in Out/Op: proved at Out = u64 and u8 with fully symbolic values",
             "continuations are modelled by recording closures (count, first two values, alive flag); what a real continuation does with the value (send into the task's private channel) is not decided here",
             "in contract harnesses the continuations are zero-sized (Kani contract checking counts freeing a consumed Box as a write outside modifies(self))",
+            "unit R (serialized path routing: resume(id) reaches exactly entry id and touches no other): slab as a partial map, lock erasure - see C09",
             "unit L (legacy futures): lock erasure X4 - Arc<Mutex<S>> read as S, X.lock().unwrap() as &mut X, the Weak pointer as (alive, target); std Waker/Context, the deferred send_request closure and the stream's private channel ends are assumed contracts (wake notifies exactly the waker's task; a clone wakes the same task; FIFO channel); Mutex poisoning is not modelled",
         ],
         "not_decided": [
